@@ -623,7 +623,9 @@ def main(chk):
         explore(chk, 'core', 4, 4, procs, procs)
     else:
         explore(chk, 'wide', 3, 3, procs, procs)
-        explore(chk, 'core', 5, 3, procs, procs)
+        # depth 5 over the core alphabet (13 228 statements in TLC) is out of reach of the replay: hashing a forml source
+        # is exponential in its nesting depth, statements nested five levels take tens of milliseconds per call
+        explore(chk, 'core', 4, 4, procs, procs)
     trace_validate(chk, generator_statements(chk, rnd), procs, 'gen')
     # binding self-test of the replay comparison itself: a flipped expected outcome is noticed
     al = alphabet('core')
